@@ -262,6 +262,9 @@ def gen_config(rng, world, family=None, only_edges=None, ne=None, width=None, se
             cfg["max_dist_init"] = rng.choice([0.5, 1.0, 2.0, 4.0, 50.0]) * unit
         if rng.random() < 0.5:
             cfg["min_prob_norm"] = rng.choice([0.001, 0.01, 0.1, 0.3, 0.5, 0.8])
+            if cfg["min_prob_norm"] == 0.001 and derive("mpn0", sigma, world.get("shape")) % 2:
+                # probability zero as the cut-off: a valid way of saying "none" (int or float)
+                cfg["min_prob_norm"] = [0, 0.0][derive("mpn0t", sigma) % 2]
     if ne is None:
         ne = rng.random() < 0.6
     cfg["non_emitting_states"] = bool(ne)
